@@ -37,8 +37,15 @@ if res.get("confirmed"):
     for f in ("patch.diff", "demo.cpp", "notes.md"):
         if os.path.exists(os.path.join(cand, f)):
             shutil.copy(os.path.join(cand, f), dst)
+    title = "see notes.md"
+    try:
+        import re
+        first = [x.strip() for x in open(os.path.join(cand, "notes.md")).read().splitlines() if x.strip()][0]
+        title = re.sub(r"^#\s*((cand_[ab]|Candidate [AB])\s*[-:]\s*)?", "", first)
+    except Exception:
+        pass
     meta = {"id": sid, "breaks_property": prop, "origin": "independent sub-agent given only the property text and a scratch worktree",
-            "needs_to_manifest": "see notes.md", "confirmation": res, "checks": {}}
+            "needs_to_manifest": title, "confirmation": res, "checks": {}}
     mp = os.path.join(dst, "meta.json")
     if os.path.exists(mp):
         old = json.load(open(mp)); meta["checks"] = old.get("checks", {}); meta["needs_to_manifest"] = old.get("needs_to_manifest", meta["needs_to_manifest"])
